@@ -187,6 +187,7 @@ def call_sites(model, R):
         R.check(got == PAIRS[name], 'DIRECTION', func, call, f'{name}: rank and successor relation of its direction',
                 f'sortkey {PAIRS[name][0]!r} with successors {PAIRS[name][1]!r}', f'sortkey {got[0]!r} with successors {got[1]!r}')
         if name in ('upset', 'downset'):
+            seeds = Env(func).expand(seeds)
             R.check(isinstance(seeds, (ast.List, ast.Tuple)) and len(seeds.elts) == 1 and name_is(seeds.elts[0], func.params[0]),
                     'DIRECTION', func, call, f'{name}: seeded with the concept itself', '[self]', src(seeds))
         else:
@@ -203,7 +204,7 @@ def call_sites(model, R):
                 cname = (chain(comp) or [''])[-1] if comp is not None else 'lt (default)'
                 R.check(cname == COMPARISON[name] or cname == {'properly_subsumes': '__gt__', 'properly_implies': '__lt__'}[COMPARISON[name]],
                         'DIRECTION', func, v, f'{name}: seeds reduced in the matching direction',
-                        f'tools.maximal(concepts, comparison=Concept.{COMPARISON[name]})', src(v),
+                        f'tools.maximal({p}, Concept.{COMPARISON[name]})', src(v),
                         extra={'consequence': 'the wrong comparison keeps the far ends and drops the seeds whose sets are needed'})
             elif isinstance(v, ast.Call) and name_is(v.func, 'set') or isinstance(v, ast.Call) and name_is(v.func, 'list'):
                 R.ok('DIRECTION', func, call, f'{name}: seeded with all given concepts')
